@@ -476,7 +476,7 @@ def cstring_decode(fn: ast.FunctionDef, data: str):
 
 def classify_handler(repo: Repo, ci: ClassInfo, cid: str, fn: ast.FunctionDef) -> RRow:
     from . import inline
-    fn = inline.normalize(repo, ci, fn)
+    fn = inline.normalize(repo, ci, fn, aliases=True)
     body = stmts_of(fn)
     row = RRow(cid, "custom", None, [], "", fn, ci.qualname, ci.file.rel, stmts=[norm(s) for s in body])
     params = [a.arg for a in fn.args.args if a.arg != "self"]
